@@ -15,6 +15,7 @@ type Violation struct {
 	Harness  string   `json:"harness"`
 	Tier     string   `json:"tier"`
 	Choices  []int    `json:"choices"`
+	Choices2 []int    `json:"choices2,omitempty"` // a second case to run first (pair violations)
 	Class    string   `json:"class"`
 	Message  string   `json:"message"`
 	Log      []string `json:"log,omitempty"`
@@ -55,6 +56,7 @@ type Worker struct {
 	skip      map[int64]bool
 
 	res        *Result
+	emit       map[[16]byte]emitRec
 	distinct   map[uint64]struct{}
 	caseIdx    int64
 	ownedCases int64
@@ -111,6 +113,7 @@ func (w *Worker) Run(body func(*Ctx)) *Result {
 	}
 	w.res = NewResult()
 	w.distinct = map[uint64]struct{}{}
+	w.emit = map[[16]byte]emitRec{}
 	w.caseIdx = -1
 	if w.OutPath != "" {
 		// resume from checkpoint
@@ -212,6 +215,16 @@ func (w *Worker) save(done bool) {
 	}
 	os.WriteFile(w.OutPath+".hashes.tmp", buf, 0644)
 	os.Rename(w.OutPath+".hashes.tmp", w.OutPath+".hashes")
+	if len(w.emit) > 0 && done {
+		var eb []byte
+		for k, r := range w.emit {
+			eb = append(eb, k[:]...)
+			eb = binary.LittleEndian.AppendUint64(eb, r.val)
+			eb = binary.AppendUvarint(eb, uint64(len(r.choices)))
+			eb = append(eb, r.choices...)
+		}
+		os.WriteFile(w.OutPath+".emit", eb, 0644)
+	}
 	b, _ := json.Marshal(w.res)
 	os.WriteFile(w.OutPath+".tmp", b, 0644)
 	os.Rename(w.OutPath+".tmp", w.OutPath)
@@ -236,13 +249,75 @@ func ReadHashes(path string) []uint64 {
 	return out
 }
 
+type emitRec struct {
+	val     uint64
+	choices []byte
+}
+
+func encodeChoices(c []int) []byte {
+	var b []byte
+	for _, x := range c {
+		b = binary.AppendUvarint(b, uint64(x))
+	}
+	return b
+}
+
+func decodeChoices(b []byte) []int {
+	var out []int
+	for len(b) > 0 {
+		v, n := binary.Uvarint(b)
+		if n <= 0 {
+			break
+		}
+		out = append(out, int(v))
+		b = b[n:]
+	}
+	return out
+}
+
+// ReadEmit parses an emit file.
+func ReadEmit(path string, f func(key [16]byte, val uint64, choices []byte)) {
+	b, err := os.ReadFile(path)
+	if err != nil {
+		return
+	}
+	for len(b) >= 24 {
+		var k [16]byte
+		copy(k[:], b[:16])
+		v := binary.LittleEndian.Uint64(b[16:24])
+		b = b[24:]
+		l, n := binary.Uvarint(b)
+		if n <= 0 || int(l) > len(b)-n {
+			return
+		}
+		f(k, v, b[n:n+int(l)])
+		b = b[n+int(l):]
+	}
+}
+
 // Replay executes body once on the given choice list and returns the violations it records.
 func Replay(property, harness, tier string, devBound int, choices []int, body func(*Ctx)) (*Result, []string) {
 	w := &Worker{Property: property, Harness: harness, Tier: tier, Of: 1, DevBound: devBound}
 	w.res = NewResult()
 	w.distinct = map[uint64]struct{}{}
+	w.emit = map[[16]byte]emitRec{}
 	w.skip = map[int64]bool{}
 	c := &Ctx{w: w, Tier: tier, prefix: choices, replay: true}
 	w.exec(c, body)
 	return w.res, c.log
+}
+
+// ReplayPair runs first and then second in one worker, so that a cross-case (Emit) conflict
+// shows up again.
+func ReplayPair(property, harness, tier string, devBound int, first, second []int, body func(*Ctx)) (*Result, []string) {
+	w := &Worker{Property: property, Harness: harness, Tier: tier, Of: 1, DevBound: devBound}
+	w.res = NewResult()
+	w.distinct = map[uint64]struct{}{}
+	w.emit = map[[16]byte]emitRec{}
+	w.skip = map[int64]bool{}
+	c1 := &Ctx{w: w, Tier: tier, prefix: first, replay: true}
+	w.exec(c1, body)
+	c2 := &Ctx{w: w, Tier: tier, prefix: second, replay: true}
+	w.exec(c2, body)
+	return w.res, append(c1.log, c2.log...)
 }
